@@ -67,7 +67,7 @@ def run_atlas_cli(b, sc, workdir, flags=(), key_by="env", start=None, end=None, 
                 if suf.isdigit() and os.path.isfile(pth):
                     outs[int(suf)] = open(pth, "rb").read()
         tmp_left = []
-        for n in (sorted(os.listdir(tmp)) if os.path.isdir(tmp) else []):
+        for n in (sorted(x for x in os.listdir(tmp) if "stale0" not in x) if os.path.isdir(tmp) else []):
             pth = os.path.join(tmp, n)
             tmp_left.append((n, os.path.getsize(pth) if os.path.isfile(pth) else -1))
         other_files = {}
